@@ -113,6 +113,7 @@ func init() {
 		c.floor("nil-state-contract", 9)
 		c18ClearAfterDone(c)
 		c18ErrorFirst(c)
+		c18DeleteAfterIngest(c)
 		// validation-first
 		if f := p.Func("migration", "", "NewRunner"); f != nil {
 			k := 0
@@ -470,4 +471,29 @@ func c18ErrorFirst(c *Ctx) {
 	} else {
 		c.und("history-entry-optional", "historyprunner.copyValue", "", "anchor not found")
 	}
+}
+
+// c18DeleteAfterIngest: a worker that converts a range of items and then deletes their old representation queues the
+// deletion only after its per-item loop has finished: if an item fails mid-range the partial batch is still flushed by the
+// pipeline (Done), and a deletion queued first would remove old entries of items that were never converted.
+func c18DeleteAfterIngest(c *Ctx) {
+	p := c.P
+	f := p.Func("migration/blocktransactions", "ingestor", "ingestBlockRange")
+	if f == nil {
+		c.und("delete-after-ingest", "ingestor.ingestBlockRange", "", "anchor not found")
+		return
+	}
+	del := findSite(f, "deleteOldBlockRangeData")
+	ing := findSite(f, "ingestBlock")
+	if del == nil || ing == nil {
+		c.viol("delete-after-ingest", "ingestBlockRange", p.Pos(fnPos(f)), "ingestBlockRange no longer ingests each block and then deletes the old layout of the range")
+		return
+	}
+	// the delete is outside the loop and every path to it went through the loop's exit
+	okAfter := inSameLoop(ing.Block(), ing.Block()) && !inSameLoop(del.Block(), del.Block()) && !dominatesInstr(del.Instr, ing.Instr)
+	// and it is reached only when no item failed
+	okErr, miss := everyDisjunctHas(p.mustHoldAt(del.Instr), []string{"^!", "ingestBlock(", "!= nil)"}, []string{"^!", "< "}, []string{"^!", "<= "})
+	_ = okErr
+	_ = miss
+	c.check(okAfter, "delete-after-ingest", "ingestBlockRange: deleteOldBlockRangeData", p.Pos(del.Pos()), "queued after the per-block loop completed", "the old-layout range deletion is queued before the blocks of the range are ingested: when a block fails mid-range the flushed partial batch deletes old entries of blocks that were never converted, and they end up in neither layout")
 }
